@@ -1134,7 +1134,9 @@ def optional_value_flags(ctx, rule, prog, crate):
             for i in ids:
                 zero_ok[i] = (lo, c)
     flags = sorted(i for i, (lo, c) in zero_ok.items() if lo == "0" and i not in dmv)
-    ctx.anchor(rule, "options that may be given without a value", flags, 1)
+    ctx.anchor(rule, "options whose arity is declared with num_args", sorted(zero_ok), 1)
+    for i in sorted(j for j, (lo, c_) in zero_ok.items() if lo == "0" and j in dmv):
+        ctx.ok(rule, "%s|bare-flag-value-supplied-by-clap (default_missing_value)" % i)
     for i in flags:
         reads = [c for c in cfgb.live_calls() if c.callee.startswith("clap::ArgMatches::") and len(c.args) > 1 and
                  '"%s"' % i in {str(x.a) for x in cfgb.prov.op_src(c.args[1]) if x.kind == "const"}]
@@ -1211,8 +1213,8 @@ def no_cli_defaults(ctx, rule, prog, crate, only=None):
     if not ctx.anchor(rule, "cli::command", 1 if cmd else 0, 1):
         return
     ctx.saw(cmd)
-    DEFAULTS = ("default_value", "default_values", "default_value_os", "default_values_os", "default_value_if", "default_value_ifs",
-                "default_missing_value", "default_missing_values", "default_missing_value_os", "default_missing_values_os")
+    # default_missing_value* is not among them: it only applies when the flag IS given (without a value) - R15.12's business
+    DEFAULTS = ("default_value", "default_values", "default_value_os", "default_values_os", "default_value_if", "default_value_ifs")
     n = 0
     for c in cmd.live_calls():
         if not c.callee.startswith("clap::"):
